@@ -28,6 +28,9 @@ pub struct HistCfg {
     pub fsinfo: Option<FsInfoInit>,
     /// add a directory FULLDIR whose slots are all taken, and open it as directory slot 1
     pub full_dir: bool,
+    /// sanitizer legs only: the smallest FAT16 volume, and no further ops are issued after this
+    /// instant (a budget on how much is explored, never a verdict)
+    pub mini_deadline: Option<std::time::Instant>,
 }
 
 impl HistCfg {
@@ -54,6 +57,13 @@ pub struct Built {
 pub fn build_image(cfg: &HistCfg) -> Built {
     let mut rng = Rng::from_parts(&[cfg.seed, cfg.index, 0x1337]);
     let mut g1 = Geom::random(&mut rng, cfg.fat32, cfg.max_spc);
+    if cfg.mini_deadline.is_some() {
+        let keep = (g1.part_slot, g1.part_start.min(2049), g1.nfats.min(2));
+        g1 = Geom::base_fat16(4085 + rng.below(60) as u32, 1);
+        g1.part_slot = keep.0;
+        g1.part_start = keep.1;
+        g1.nfats = keep.2;
+    }
     if cfg.force_two_fats {
         g1.nfats = 2;
     }
@@ -171,6 +181,7 @@ pub fn cfg_for_tier(prop: &str, seed: u64, index: u64, thorough: bool) -> HistCf
         force_two_fats: prop == "C16" && index % 2 == 0,
         fsinfo: None,
         full_dir: edge,
+        mini_deadline: None,
     }
 }
 
@@ -192,6 +203,9 @@ pub fn run_history(cfg: &HistCfg) -> Result<Engine, String> {
     }
     for _ in 0..cfg.nops {
         if e.aborted {
+            break;
+        }
+        if cfg.mini_deadline.map(|d| std::time::Instant::now() > d).unwrap_or(false) {
             break;
         }
         let op = e.gen_op(&mut rng, cfg.profile);
@@ -290,6 +304,9 @@ fn run_mini(ctx: &Ctx, prop: &str) -> i32 {
         cfg.leave_free = None;
         cfg.nops = ctx.arg_u64("ops").unwrap_or(60) as usize;
         cfg.full_dir = false;
+        // budget per process: 100 s of issuing ops in the quick tier, 15 min in the thorough one
+        let budget = ctx.arg_u64("budget").unwrap_or(100);
+        cfg.mini_deadline = Some(ctx.start + std::time::Duration::from_secs(budget));
         if cfg.profile == Profile::Edge {
             cfg.profile = Profile::Mixed;
         }
